@@ -791,6 +791,109 @@ fn c18_reset_after_rewards(seed: u64) -> Acc {
     acc
 }
 
+/// Directed close scenario: a position that is "almost empty" - its liquidity removed and everything paid out EXCEPT one
+/// thing (fees of token A, fees of token B, reward 0, reward 1, reward 2), or holding a liquidity that is an exact
+/// multiple of 2^64 - is offered to the close instruction of its kind (plain and token-extensions). Each must be
+/// refused; every step goes through the C18 monitor (`closed_non_empty`).
+fn c18_close_with_one_thing_left(seed: u64) -> Acc {
+    use crate::monitors::c18::C18;
+    use crate::world::*;
+    let mut acc = Acc::default();
+    let mut mon = C18;
+    for token_ext in [true, false] {
+        for left in 0..6usize {
+            let mut w = World::new(crate::rnd::rng(seed ^ (left as u64) << 4 ^ token_ext as u64));
+            let c = w.add_config(300);
+            let u = w.add_user();
+            let (m1, m2) = (w.add_spl_mint(6), w.add_spl_mint(6));
+            let Ok(p) = w.add_pool(c, m1, m2, 64, 3000, 1u128 << 64, false) else {
+                acc.count("harness_errors");
+                continue;
+            };
+            let mut run = |w: &mut World, ix: crate::ix::Ix, acc: &mut Acc| -> bool {
+                let o = w.exec(ix);
+                acc.evaluations += 1;
+                Monitor::after(&mut mon, w, &o, acc);
+                o.ok()
+            };
+            let mut ok = true;
+            for t in [-5632, 0] {
+                w.ensure_tick_array(p, t, false);
+            }
+            for k in 0..3u8 {
+                let mint = w.add_spl_mint(6);
+                let (ix, vault) = w.init_reward_ix(p, k, mint);
+                ok &= run(&mut w, ix, &mut acc);
+                w.set_token_balance(vault, 1_000_000_000_000);
+                w.pools[p].rewards.push((mint, vault));
+                let ix = w.set_emissions_ix(p, k, 5u128 << 64);
+                ok &= run(&mut w, ix, &mut acc);
+            }
+            // Q keeps the pool liquid, P is the position under test
+            let mut idx = vec![];
+            for te in [false, token_ext] {
+                let (ix, info) = w.open_position_ix(p, u, -1280, 1280, te);
+                ok &= run(&mut w, ix, &mut acc);
+                w.positions.push(info);
+                let i = w.positions.len() - 1;
+                idx.push(i);
+                let ix = w.modify_v2(i).increase_liquidity_v2(if left == 5 { 1u128 << 64 } else { 1_000_000_000 }, u64::MAX, u64::MAX, None);
+                ok &= run(&mut w, ix, &mut acc);
+            }
+            let pi = idx[1];
+            if left < 5 {
+                for a_to_b in [true, false, true, false] {
+                    let ix = w.swap_ix(p, u, 50_000_000, 0, 0, true, a_to_b, true);
+                    ok &= run(&mut w, ix, &mut acc);
+                }
+                w.advance_clock(500);
+                let ix = w.update_fees_ix(pi);
+                ok &= run(&mut w, ix, &mut acc);
+                let l = w.bank.data(&w.positions[pi].position).and_then(crate::codec::Position::decode).map(|x| x.liquidity).unwrap_or(0);
+                let ix = w.modify_v2(pi).decrease_liquidity_v2(l, 0, 0, None);
+                ok &= run(&mut w, ix, &mut acc);
+                // pay out everything except the one thing that stays: fees are collected together, so to leave exactly one
+                // fee token the other one is zeroed in the account (the program's own arithmetic is not involved in that)
+                if left >= 2 {
+                    let ix = w.collect_fees_ix(pi, true);
+                    ok &= run(&mut w, ix, &mut acc);
+                } else {
+                    let posk = w.positions[pi].position;
+                    if let Some(mut a) = w.bank.get(&posk).cloned() {
+                        // Position layout: disc 8, whirlpool 32, mint 32, liquidity 16, ticks 8, checkpoint_a 16, fee_owed_a 8, checkpoint_b 16, fee_owed_b 8
+                        let off = if left == 0 { 8 + 32 + 32 + 16 + 8 + 16 + 8 + 16 } else { 8 + 32 + 32 + 16 + 8 + 16 };
+                        a.data[off..off + 8].copy_from_slice(&0u64.to_le_bytes());
+                        w.bank.set(posk, a);
+                    }
+                }
+                for k in 0..3u8 {
+                    if left >= 2 && (left - 2) as u8 == k {
+                        continue;
+                    }
+                    let ix = w.collect_reward_ix(pi, k);
+                    ok &= run(&mut w, ix, &mut acc);
+                }
+            }
+            let pp = w.bank.data(&w.positions[pi].position).and_then(crate::codec::Position::decode).unwrap_or_default();
+            let leftover = (pp.liquidity, pp.fee_owed_a, pp.fee_owed_b, [pp.reward_infos[0].amount_owed, pp.reward_infos[1].amount_owed, pp.reward_infos[2].amount_owed]);
+            let ix = w.close_position_ix(pi);
+            let closed = run(&mut w, ix, &mut acc);
+            acc.situation(format!("close_with_one_thing_left:{}:{}:{}", if token_ext { "token_extensions" } else { "plain" }, ["fee_a", "fee_b", "reward_0", "reward_1", "reward_2", "liquidity_2^64"][left], if closed { "closed" } else { "refused" }));
+            if ok {
+                acc.count("directed_closes_with_one_thing_left");
+                let n = (leftover.0 > 0) as u32 + (leftover.1 > 0) as u32 + (leftover.2 > 0) as u32 + leftover.3.iter().filter(|x| **x > 0).count() as u32;
+                if n == 1 {
+                    acc.count("directed_closes_with_exactly_one_thing_left");
+                }
+            } else {
+                acc.notes.push(format!("HARNESS-ERROR directed close scenario (left {left}, token_ext {token_ext}) did not run to the end"));
+                acc.count("harness_errors");
+            }
+        }
+    }
+    acc
+}
+
 pub fn c18(tier: Tier, seed: u64) -> i32 {
     use crate::monitors::c18::C18;
     let mut rep = Report::new("C18", tier, seed);
@@ -806,9 +909,12 @@ pub fn c18(tier: Tier, seed: u64) -> i32 {
     let mut acc = acc;
     acc.merge(c18_full_bundle(seed ^ 0x18));
     acc.merge(c18_reset_after_rewards(seed ^ 0x1818));
+    acc.merge(c18_close_with_one_thing_left(seed ^ 0xc105e));
     rep.acc = acc;
     rep.floor("bundles_filled_completely", 1);
     rep.floor("directed_resets_after_rewards", 8);
+    rep.floor("directed_closes_with_one_thing_left", 12);
+    rep.floor("directed_closes_with_exactly_one_thing_left", 8);
     rep.floor("directed_resets_with_idle_slot_in_front", 3);
     rep.floor("full_bundle_delete_refusals", 7);
     rep.floor("empty_bundle_deleted", 1);
